@@ -343,12 +343,35 @@ func runC10(c *core.Ctx, res *core.Result) {
 		case 3:
 			nv = old + 1
 		}
+		if cl == "type" && r.Chance(70) {
+			// every other record type, valid or not (1 full, 2 first, 3 middle, 4 last): a first fragment read as a
+			// full record, a full record read as a fragment, ...
+			nv = []byte{1, 2, 3, 4, 0, 5}[r.Intn(6)]
+		}
 		if nv == old {
 			nv = old ^ 0x40
 		}
 		faults = append(faults, fault{file: f, pos: p, val: nv, class: cl})
 	}
 
+	// the type byte of fragment headers set to every other type
+	for f := range files {
+		raw := data[f]
+		var heads []int64
+		for pos := int64(0); pos+7 <= int64(len(raw)); {
+			if t := raw[pos+6]; t >= 2 && t <= 4 {
+				heads = append(heads, pos+6)
+			}
+			pos += 7 + int64(binary.LittleEndian.Uint16(raw[pos+4:pos+6]))
+		}
+		for n := 0; n < 8 && len(heads) > 0; n++ {
+			p := heads[r.Intn(len(heads))]
+			nv := []byte{1, 2, 3, 4}[r.Intn(4)]
+			if nv != raw[p] {
+				faults = append(faults, fault{file: f, pos: p, val: nv, class: "fragment_type"})
+			}
+		}
+	}
 	// corruptions inside the MIDDLE/LAST fragments of multi-record entries: the reader has already collected the
 	// entry's first fragments when it meets the damage
 	for f := range files {
